@@ -6,6 +6,7 @@
 #include <jsoncons_ext/msgpack/msgpack.hpp>
 #include <jsoncons_ext/ubjson/ubjson.hpp>
 #include <jsoncons_ext/bson/bson.hpp>
+#include <jsoncons_ext/csv/csv.hpp>
 #include <sstream>
 #include <new>
 #include <atomic>
@@ -71,6 +72,17 @@ static std::vector<Path> paths() {
         for (int i = 0; i < 3; ++i) b.insert(b.end(), md.begin(), md.end()); Bytes c = rep({0x81}, d - 1, {0x00}, {}); b.insert(b.end(), c.begin(), c.end()); return b; }});
     p.push_back({"cbor", "array-after-typed-array-siblings", [](int d) { if (d < 6) return rep({0x81}, d, {0x00}, {}); Bytes ta = {0xd8, 0x40, 0x43, 1, 2, 3}; Bytes b = {0x84};
         for (int i = 0; i < 3; ++i) b.insert(b.end(), ta.begin(), ta.end()); Bytes c = rep({0x81}, d - 1, {0x00}, {}); b.insert(b.end(), c.begin(), c.end()); return b; }});
+    // three sibling chains inside one array: a level that is not given back when a container closes uses up the budget of the next sibling
+    auto sib = [](const Bytes& open3, const Bytes& close3, const Bytes& sep, std::function<Bytes(int)> chain) { return [=](int d) { if (d < 2) return chain(d); Bytes b = open3; for (int i = 0; i < 3; ++i) { if (i) b.insert(b.end(), sep.begin(), sep.end()); Bytes c = chain(d - 1); b.insert(b.end(), c.begin(), c.end()); } b.insert(b.end(), close3.begin(), close3.end()); return b; }; };
+    p.push_back({"json", "sibling-object-chains", sib(js("["), js("]"), js(","), [](int d) { return rep(js("{\"a\":"), d, js("1"), js("}")); })});
+    p.push_back({"json", "sibling-array-chains", sib(js("["), js("]"), js(","), [](int d) { return rep(js("["), d, js("1"), js("]")); })});
+    p.push_back({"cbor", "sibling-map-chains", sib({0x83}, {}, {}, [](int d) { return rep({0xa1, 0x61, 'a'}, d, {0x00}, {}); })});
+    p.push_back({"cbor", "sibling-indefinite-array-chains", sib({0x9f}, {0xff}, {}, [](int d) { return rep({0x9f}, d, {0x00}, {0xff}); })});
+    p.push_back({"msgpack", "sibling-map-chains", sib({0x93}, {}, {}, [](int d) { return rep({0x81, 0xa1, 'a'}, d, {0x00}, {}); })});
+    p.push_back({"msgpack", "sibling-array-chains", sib({0x93}, {}, {}, [](int d) { return rep({0x91}, d, {0x00}, {}); })});
+    p.push_back({"ubjson", "sibling-object-chains", sib({'['}, {']'}, {}, [](int d) { return rep({'{', 'U', 1, 'a'}, d, {'Z'}, {'}'}); })});
+    p.push_back({"ubjson", "sibling-array-chains", sib({'['}, {']'}, {}, [](int d) { return rep({'['}, d, {'Z'}, {']'}); })});
+    p.push_back({"ubjson", "sibling-counted-object-chains", sib({'[', '#', 'U', 3}, {}, {}, [](int d) { return rep({'{', '#', 'U', 1, 'U', 1, 'a'}, d, {'Z'}, {}); })});
     p.push_back({"msgpack", "fixarray", [](int d) { return rep({0x91}, d, {0x00}, {}); }});
     p.push_back({"msgpack", "array16", [](int d) { return rep({0xdc, 0x00, 0x01}, d, {0x00}, {}); }});
     p.push_back({"msgpack", "array32", [](int d) { return rep({0xdd, 0, 0, 0, 1}, d, {0x00}, {}); }});
@@ -141,14 +153,16 @@ static void encoder_cell(int L, int kind) {
     for (int dd = -1; dd <= 1; ++dd) {
         int d = L + dd; if (d < 0) continue;
         json v = nested_value(d, kind);
-        for (int f = 0; f < 6; ++f) {
-            static const char* fn[] = {"json", "cbor", "msgpack", "ubjson", "bson", "json-pretty"};
+        for (int f = 0; f < 7; ++f) {
+            static const char* fn[] = {"json", "cbor", "msgpack", "ubjson", "bson", "json-pretty", "csv"};
+            if (f == 6 && (kind != 0 || d == 0 || L == 0)) continue;   // CSV: arrays nested in arrays (rows, fields, subfields ...)
             if (f == 4 && (kind == 0 || d == 0)) continue;     // BSON root must be a document
             std::error_code ec;
             try {
                 switch (f) {
                 case 0: { std::string s; json_options o; o.max_nesting_depth(L); v.dump(s, o, indenting::no_indent, ec); break; }     // compact encoder, every depth
                 case 5: { std::string s; json_options o; o.max_nesting_depth(L); v.dump(s, o, indenting::indent, ec); break; }        // pretty encoder, every depth
+                case 6: { std::string s; csv::csv_options o; o.max_nesting_depth(L); csv::csv_string_encoder e(s, o); v.dump(e, ec); break; }
                 case 1: { Bytes b; cbor::cbor_options o; o.max_nesting_depth(L); cbor::cbor_bytes_encoder e(b, o); v.dump(e, ec); break; }
                 case 2: { Bytes b; msgpack::msgpack_options o; o.max_nesting_depth(L); msgpack::msgpack_bytes_encoder e(b, o); v.dump(e, ec); break; }
                 case 3: { Bytes b; ubjson::ubjson_options o; o.max_nesting_depth(L); ubjson::ubjson_bytes_encoder e(b, o); v.dump(e, ec); break; }
